@@ -64,6 +64,18 @@ func init() {
 				if err := msg.Marshal(sur); err != nil {
 					return "marshal-error"
 				}
+				// "~": the optional ConsumedUnits / MonetaryQuota AVP is left out of the Service-Rating group (the struct
+				// marshalling always writes scalar members, a peer need not)
+				var omit []string
+				if t[6] == "~" {
+					omit = append(omit, "ConsumedUnits")
+				}
+				if t[7] == "~" {
+					omit = append(omit, "MonetaryQuota")
+				}
+				if len(omit) > 0 && !stripNested(msg, omit) {
+					return "strip-error"
+				}
 				a, st := rfPeer.roundTrip(msg)
 				switch st {
 				case rtNoAnswer:
@@ -89,6 +101,35 @@ func init() {
 			return "bad-op"
 		},
 	}
+}
+
+// stripNested removes the named AVPs from every grouped AVP of the message and fixes the message length
+func stripNested(m *diam.Message, names []string) bool {
+	codes := map[uint32]bool{}
+	for _, n := range names {
+		a, err := dict.Default.FindAVP(charging_code.Re_interface, n)
+		if err != nil {
+			return false
+		}
+		codes[a.Code] = true
+	}
+	for _, a := range m.AVP {
+		if g, ok := a.Data.(*diam.GroupedAVP); ok {
+			var keep []*diam.AVP
+			for _, x := range g.AVP {
+				if !codes[x.Code] {
+					keep = append(keep, x)
+				}
+			}
+			g.AVP = keep
+		}
+	}
+	n := diam.HeaderLength
+	for _, a := range m.AVP {
+		n += a.Len()
+	}
+	m.Header.MessageLength = uint32(n)
+	return true
 }
 
 var rfAmounts = []uint64{0, 1, 2, 3, 7, 99, 100, 101, 1000, 65535, 65536, 1 << 31, 1<<32 - 1}
@@ -151,8 +192,15 @@ func genRf(o genOpts, w *bufio.Writer) {
 			if r.chance(4) {
 				subTok = "-"
 			}
-			fmt.Fprintf(w, "rf sur %s %d %s %d %d %d %d\n", hexOf([]byte(fmt.Sprintf("r%d", r.intn(1000)))),
-				subType, subTok, rg, r.pick(1, 1, 1, 2, 2, 0, 3, 9), amt(), amt())
+			amtTok := func() string {
+				v := amt()
+				if r.chance(8) {
+					return "~" // the optional AVP is absent: the server sees no consumed units / no monetary quota
+				}
+				return strconv.FormatUint(v, 10)
+			}
+			fmt.Fprintf(w, "rf sur %s %d %s %d %d %s %s\n", hexOf([]byte(fmt.Sprintf("r%d", r.intn(1000)))),
+				subType, subTok, rg, r.pick(1, 1, 1, 2, 2, 0, 3, 9), amtTok(), amtTok())
 			done++
 		}
 	}
